@@ -13,7 +13,7 @@ ASSUMPTIONS = ["return values are compared only for calls without a rule given u
 TRUSTED = []
 KEEP_PREFIX = 0
 POOL = {"flow": ["t3", "t5", "t7", "w9", "xneg", "xwarm"], "iso": ["c1", "c2", "c3", "xzero"], "hs": ["q2", "q4", "c3", "xdur", "xkey"],
-        "br": ["e2", "r5", "s5", "xivl", "xthr"], "sys": ["q5", "q6", "c3", "l5", "xneg", "xload"]}
+        "br": ["e2", "e3", "r5", "s5", "xivl", "xthr"], "sys": ["q5", "q6", "c3", "l5", "xneg", "xload"]}
 
 
 def gen_case(rng, tier):
@@ -77,6 +77,38 @@ def gen_case(rng, tier):
     return ops
 
 
+REUSABLE = {"flow": ["t3", "t5", "t7"], "hs": ["q2", "q4"], "br": ["e2", "e3"]}
+
+
+def gen_focus(rng, tier):
+    """one resource, rules that differ but can take over each other's statistics (same window / strategy): appends and
+    per-resource loads in quick succession, so that the 'reuse the statistic of an old controller' path of the builders runs
+    on lists that are still in use (seed C10-d)"""
+    fam = rng.choice(["br", "br", "flow", "hs"])
+    keys = REUSABLE[fam]
+    ops = []
+    nid = 0
+    for _ in range(rng.randint(2, 7)):
+        nid += 1
+        r = "%s%d@r1@%s" % ("abcdefgh"[nid % 8], nid, rng.choice(keys))
+        x = rng.random()
+        if x < 0.65:
+            ops.append("m fam=%s op=append rule=%s" % (fam, r))
+        elif x < 0.85:
+            nid += 1
+            r2 = "%s%d@r1@%s" % ("abcdefgh"[nid % 8], nid, rng.choice(keys))
+            ops.append("m fam=%s op=loadres res=r1 rules=%s" % (fam, ",".join([r, r2][:rng.randint(1, 2)])))
+        else:
+            ops.append("m fam=%s op=loadall rules=%s" % (fam, r))
+        ops.append("m fam=%s op=get" % fam)
+        ops.append("m fam=%s op=getres res=r1" % fam)
+        if fam == "br":
+            ops.append("m fam=br op=enforced res=r1")
+        if fam == "flow" and rng.random() < 0.5:
+            ops.append("m fam=flow op=probe res=r1")
+    return ops
+
+
 def gen(rng, tier):
     n = 400 if tier == "quick" else 20000
-    return [gen_case(rng, tier) for _ in range(n)]
+    return [gen_case(rng, tier) if i % 5 else gen_focus(rng, tier) for i in range(n)]
